@@ -41,7 +41,8 @@ Kinds == BuiltinKinds \cup RouteKinds \cup GenKinds \cup MalformedKinds \cup {Sc
 (*   e        reply_error (custom error through reply_struct), propagate   *)
 (*   u        to_upgraded()                                                *)
 (*   x        return Err(...) from the method                              *)
-Steps == {"c1", "c0", "r", "R", "e", "u", "x"}
+\* "n": the standard helper reply_method_not_implemented (an error reply like "e", with the standard name and parameter)
+Steps == {"c1", "c0", "r", "R", "e", "n", "u", "x"}
 
 Req(k, more, oneway, upgrade, script) ==
   [k |-> k, more |-> more, oneway |-> oneway, upgrade |-> upgrade, script |-> script]
@@ -76,9 +77,10 @@ RunScript(r, pos, cont, items, results, upgraded) ==
       [] s = "c0" -> RunScript(r, pos + 1, FALSE, items, Append(results, "set"), upgraded)
       [] s = "u"  -> RunScript(r, pos + 1, cont, items, Append(results, "set"), TRUE)
       [] s = "x"  -> [items |-> items, results |-> Append(results, "ret_err"), after |-> "close"]
-      [] s \in {"r", "R", "e"} ->
+      [] s \in {"r", "R", "e", "n"} ->
            LET g   == Gate(r, cont)
-               it  == Item(cont, IF s = "e" THEN "ScriptError" ELSE "", "step")
+               it  == IF s = "n" THEN Item(cont, "MethodNotImplemented", "method")
+                      ELSE Item(cont, IF s = "e" THEN "ScriptError" ELSE "", "step")
            IN  CASE g = "mismatch" ->
                       IF s = "R"
                       THEN RunScript(r, pos + 1, cont, items, Append(results, "mismatch"), upgraded)
@@ -166,7 +168,7 @@ WellBehaved(r) ==
   \* a script that replies the way the protocol intends: no reply after the final one,
   \* and exactly one final reply unless it fails
   r.k # ScriptKind \/ r.script \in {<<"r">>, <<"c1", "r", "c0", "r">>, <<"c1", "r", "r", "c0", "r">>, <<"e">>,
-                                    <<"c1","r","c0","e">>}
+                                    <<"c1","r","c0","e">>, <<"n">>}
 
 InOrder(out) == \A a, b \in 1..Len(out) : a < b => out[a].req <= out[b].req
 
